@@ -140,6 +140,7 @@ def search(ctx, n):
 def run(ctx):
     ctx.build_repo()
     meta = ctx.translate('step')
+    ctx.translate('stepf')      # float overloads: only their generated text is used (theorem float_overloads_same_formulas)
     ctx.coq_props(PROPS)
     quick = ctx.tier == 'quick'
     dis = tvgen.run_tv(ctx, 'step', meta, 40 if quick else 400, argfn=StepArgs())
@@ -162,3 +163,15 @@ def run(ctx):
     if ctx.broken or not quick:
         search(ctx, 300 if quick else 3000)
     ctx.finish()
+
+def replay(ctx, path):
+    """bin/check C41 --replay FILE : re-run a recorded failing input on the implementation (and print the record)"""
+    import json
+    r = json.load(open(path))
+    print('replay of %s: key=%s\n  %s' % (path, r.get('key'), r.get('what', r.get('no_longer_checks'))))
+    if r.get('replay_cmd'):
+        ctx.cxx(os.path.join(VERIF, 'harness', 'C41_search.cpp'), ctx.bdir('C41_search'), flags=('-DNDEBUG',))
+        rc, out, err = sh(r['replay_cmd'], timeout=1200)
+        key = (r.get('key') or '').split(':')[-1]
+        for l in out.split('\n'):
+            if l.startswith('FAIL ' + key) or l.startswith('DONE'): print('  implementation: ' + l)
